@@ -95,6 +95,17 @@ class _TimeModule(object):
         pass
 
 
+class _OsModule(object):
+    """`os` as seen by mapproxy.cache.file: a new symbolic link gets the virtual time (lstat is what the cache reads)"""
+    def __getattr__(self, name):
+        return getattr(os, name)
+
+    def symlink(self, src, dst, *a, **kw):
+        os.symlink(src, dst, *a, **kw)
+        ns = BASE * 10 ** 9 + _Env.tick * 5 * 10 ** 8
+        os.utime(dst, ns=(ns, ns), follow_symlinks=False)
+
+
 def _big_queue(size):
     # capacity of the seeder's work queue: never make the walker wait for a worker that gave up
     return multiprocessing.Queue(64)
@@ -147,7 +158,7 @@ def install():
         ns = BASE * 10 ** 9 + _Env.tick * 5 * 10 ** 8
         os.utime(filename, ns=(ns, ns))
 
-    saved = [(m_times, 'datetime', m_times.datetime), (m_file, 'write_atomic', m_file.write_atomic),
+    saved = [(m_times, 'datetime', m_times.datetime), (m_file, 'write_atomic', m_file.write_atomic), (m_file, 'os', m_file.os),
              (m_base, 'time', m_base.time), (m_mbtiles, 'time', m_mbtiles.time), (m_sutil, 'time', m_sutil.time),
              (m_seeder, 'queue_class', m_seeder.queue_class), (m_http.HTTPClient, 'open', m_http.HTTPClient.open)]
     m_http.HTTPClient.open = _fake_http_open
@@ -156,6 +167,7 @@ def install():
     logging.getLogger('mapproxy').addHandler(_Env.null_handler)
     m_times.datetime = _DatetimeModule
     m_file.write_atomic = write_atomic
+    m_file.os = _OsModule()
     tm = _TimeModule()
     m_base.time = tm
     m_mbtiles.time = tm
@@ -179,6 +191,7 @@ BACKENDS = {
     'file': (False, lambda d: _file_cache(d, 'tc')),
     'file-tms': (False, lambda d: _file_cache(d, 'tms')),
     'file-arcgis': (False, lambda d: _file_cache(d, 'arcgis')),
+    'file-symlink': (False, lambda d: _file_cache(d, 'tc', True)),       # single-colour tiles are symbolic links
     'sqlite': (True, lambda d: _sqlite_cache(d)),
     'mbtiles-ts': (True, lambda d: _mbtiles_cache(d)),
 }
@@ -189,9 +202,10 @@ def _image_opts():
     return ImageOptions(format='image/png', colors=0)
 
 
-def _file_cache(d, layout):
+def _file_cache(d, layout, link=False):
     from mapproxy.cache.file import FileCache
-    return FileCache(os.path.join(d, 'cache'), 'png', directory_layout=layout, image_opts=_image_opts())
+    return FileCache(os.path.join(d, 'cache'), 'png', directory_layout=layout, image_opts=_image_opts(),
+                     link_single_color_images=link)
 
 
 def _sqlite_cache(d):
@@ -407,7 +421,8 @@ class ConfWorld(World):
 
     def conf(self, rule):
         ctype = {'file': {'type': 'file', 'directory_layout': 'tc'}, 'file-tms': {'type': 'file', 'directory_layout': 'tms'},
-                 'file-arcgis': {'type': 'file', 'directory_layout': 'arcgis'}, 'sqlite': {'type': 'sqlite'}}[self.backend]
+                 'file-arcgis': {'type': 'file', 'directory_layout': 'arcgis'}, 'sqlite': {'type': 'sqlite'},
+                 'file-symlink': {'type': 'file', 'directory_layout': 'tc'}}[self.backend]
         cache = {'grids': ['g'], 'sources': ['up'], 'format': 'image/png', 'meta_buffer': 0,
                  'concurrent_tile_creators': 1,            # requests are sequential here (concurrency is C08)
                  'meta_size': [2, 1] if self.path == 'meta' else [1, 1],
@@ -415,6 +430,8 @@ class ConfWorld(World):
         rb = self.conf_of(rule)
         if rb:
             cache['refresh_before'] = rb
+        if self.backend == 'file-symlink':
+            cache['link_single_color_images'] = True
         return {
             'globals': {'cache': {'base_dir': os.path.join(self.root, 'cache_data'),
                                   'lock_dir': os.path.join(self.root, 'locks'),
@@ -444,7 +461,8 @@ class ConfWorld(World):
         from mapproxy.cache.mbtiles import MBTilesLevelCache
         if self.backend == 'sqlite':
             return MBTilesLevelCache(self.cache_dir)
-        return FileCache(self.cache_dir, 'png', directory_layout=self.backend.split('-')[1] if '-' in self.backend else 'tc')
+        layout = self.backend.split('-')[1] if self.backend in ('file-tms', 'file-arcgis') else 'tc'
+        return FileCache(self.cache_dir, 'png', directory_layout=layout)
 
     def seed(self, srule):
         from mapproxy.seed.config import SeedingConfiguration
@@ -924,7 +942,7 @@ def simulate(ctx, name, names, path, trunc, rules, seedrules, prec, num, depth, 
 
 def spec_to_code(ctx, prec, tally, covers):
     thorough = ctx.tier == 'thorough'
-    backends = ['file', 'sqlite', 'mbtiles-ts', 'file-tms', 'file-arcgis'] if thorough else ['file', 'sqlite']
+    backends = ['file', 'sqlite', 'mbtiles-ts', 'file-tms', 'file-arcgis', 'file-symlink'] if thorough else ['file', 'sqlite']
     num = 40 if thorough else 10
     depth = 24 if thorough else 16
     nrep = [0]
@@ -1058,7 +1076,7 @@ def validate_traces(ctx, name, traces, names, path, trunc, prec):
 
 def code_to_spec(ctx, prec, tally):
     thorough = ctx.tier == 'thorough'
-    backends = ['file', 'sqlite', 'mbtiles-ts', 'file-tms'] if thorough else ['file', 'sqlite']
+    backends = ['file', 'sqlite', 'mbtiles-ts', 'file-tms', 'file-symlink'] if thorough else ['file', 'sqlite', 'file-symlink']
     nops = 90 if thorough else 45
     reps = 6 if thorough else 3
     total = 0
